@@ -60,6 +60,13 @@ CHECKS["C05"] = ("Glob", "declarative glob semantics in TLA+ (model-checked fram
                  "every one of 24 patterns expanded twice through SpokFile.Run; TLC compares each real expansion with Glob!Expand and the two "
                  "expansions with each other.", TB + "the transcription of doublestar's matching rules in Glob.tla (validated on the pool).", "5 C05")
 
+CHECKS["C17"] = ("Find", "TLC model check of the upward walk as a state machine over every configuration incl. termination; every directory chain "
+                 "within bounds built on disk and searched with the real file.Find under a watchdog, judged by a TLC relation",
+                 "Find.tla is checked for every chain configuration, start and stop (depth 2 quick / 3 thorough): the walk terminates, returns the "
+                 "declaratively defined nearest spokfile and never looks above the stop directory; the pinned loop is refuted. Every chain of depth "
+                 "<= 2 (quick) / <= 3 plus sampled depth 4 (thorough) x start x stop is built for real and searched in a watched child process; TLC "
+                 "evaluates Conforms_C17 on every record.", TB + "a call not returning within 1.5 s is a hang; nothing named spokfile above the sandbox.", "5 C17")
+
 NOT_YET = {}
 
 
